@@ -1,15 +1,20 @@
 """Configuration of ./check C16 (see lib/registry.py for the fields)."""
 CFG = dict(
-    claim="Theorems C16_accounting (what a connection is handed is, in order and once each, a prefix of what was enqueued for it), C16_route "
-          "(every accepted envelope passed the source check, went to the record named by the rewritten destination / last return-route hop, "
-          "unchanged but for the routing fields, own name appended to the route record exactly once, return route popped), "
-          "C16_drop_only_when_full, C16_no_loss (nothing is lost while no envelope finds the buffer full), C16_source_order, C16_pair_order "
-          "(order per source-destination pair), C16_dial_once in coq/Props/C16.v over all label sequences of the small-step model "
-          "coq/Model/Proxy.v (any number of peers, envelopes, faults; any interleaving; any interceptor function). The unconditional clause "
-          "(a relayed stream is never reported complete with messages missing) is refuted: C16_complete_means_complete_refuted, finding "
-          "proxy-overflow>buf (D-16). The end-to-end clause (RPCs through the proxy complete as on a direct connection) is checked on the "
-          "real code only (clients - Proxy - Demux - Servers against direct connections), not stated as a refinement theorem. The model is "
-          "run lock-step against the real goat.Proxy on every run.",
+    claim="Theorems in coq/Props/C16.v over all label sequences of the small-step model coq/Model/Proxy.v (any number of peers, envelopes, "
+          "faults; any interleaving; any interceptor function): C16_accounting (what a connection is handed is, in order and once each, a "
+          "prefix of what was enqueued for it), C16_route (every accepted envelope passed the source check, went to the record named by the "
+          "rewritten destination / last return-route hop, unchanged but for the routing fields, own name appended to the route record exactly "
+          "once, return route popped), C16_drop_only_when_full, C16_no_loss and C16_no_loss_outstanding (at most B <= buffer envelopes ever "
+          "outstanding for a destination => nothing dropped, everything accepted handed on in order, once), C16_source_order, C16_pair_order, "
+          "C16_wire (nothing dropped for destination i => for every source j the envelopes of j among what i is handed are exactly, in order and "
+          "once each, the envelopes accepted from j for i with the route applied: a reliable ordered wire that only rewrites routing fields), "
+          "C16_dial_once, C16_redial, C16_return_route (the reply a server builds from the request's route record is routed back to the hop "
+          "the request came from / the origin). The unconditional clause (a relayed stream is never reported complete with messages missing) "
+          "is refuted: C16_complete_means_complete_refuted, finding proxy-overflow>buf (D-16). The end-to-end clause (RPCs through the proxy "
+          "complete as on a direct connection) follows informally from C16_wire + the client/server properties and is checked on the real "
+          "code (clients - Proxy - Demux - Servers against direct connections); it is not composed into one theorem. The model is run "
+          "lock-step against the real goat.Proxy on every run; the reduction used by that comparison is itself re-checked against the full "
+          "exploration (Check/C16red.v at build time, case kind CProxyRed on lock-step scenarios).",
     props="Props/C16.v",
     theorems=["C16_accounting", "C16_route", "C16_drop_only_when_full", "C16_no_loss", "C16_source_order", "C16_pair_order",
               "C16_dial_once", "C16_redial", "C16_no_loss_outstanding", "C16_wire", "C16_return_route",
@@ -38,7 +43,8 @@ CFG = dict(
          "without faults; the buffer size is measured on the running code; end-to-end: 1..8 real clients - real Proxy - real Demux keyed by "
          "source - 1..4 real Servers (pre-attached / dialled on demand, 3 rewrites), unary + bidi + client-stream + server-stream RPCs with <= 12 "
          "envelopes outstanding per destination, compared with the direct-connection outcomes; free-running stress (3..10 peers, one goroutine "
-         "per sender, paced and bursting) judged by the delivery predicates",
+         "per sender, paced and bursting) judged by the delivery predicates; a sample of lock-step scenarios (thorough: ~500) on which the "
+         "reduced and the full exploration of the model are compared outcome set by outcome set; each rig runs as 8 shard processes",
     assumptions=["payloads are opaque to the proxy (tokens; the rig compares whole envelopes modulo routing fields)",
                  "peer transports return queued envelopes in order; quiescence = testing/synctest's durable blocking; goroutine roles are read from runtime.Stack frames"],
 )
